@@ -110,15 +110,15 @@ type Effect struct {
 
 func regFieldKey(so *Sorts, st types.Type, i int) string {
 	k := fieldKey(st, i)
-	if _, ok := heapKeySort[k]; !ok {
-		heapKeySort[k] = arrSort(sInt, so.sortOf(st.Underlying().(*types.Struct).Field(i).Type()))
+	if _, ok := so.keySort[k]; !ok {
+		so.keySort[k] = arrSort(sInt, so.sortOf(st.Underlying().(*types.Struct).Field(i).Type()))
 	}
 	return k
 }
 
-func regKeyS(key, sort string) string {
-	if _, ok := heapKeySort[key]; !ok {
-		heapKeySort[key] = sort
+func regKeyS(so *Sorts, key, sort string) string {
+	if _, ok := so.keySort[key]; !ok {
+		so.keySort[key] = sort
 	}
 	return key
 }
@@ -141,7 +141,7 @@ func (p *Prog) addrEffect(so *Sorts, addr ssa.Value) (key string, base ssa.Value
 		switch xt := a.X.Type().Underlying().(type) {
 		case *types.Slice:
 			es := so.sortOf(xt.Elem())
-			return regKeyS("M:"+es, arrSort(sInt, arrSort(sInt, es))), nil, false, true
+			return regKeyS(so, "M:"+es, arrSort(sInt, arrSort(sInt, es))), nil, false, true
 		case *types.Pointer:
 			switch a.X.(type) {
 			case *ssa.FieldAddr, *ssa.IndexAddr:
@@ -149,20 +149,20 @@ func (p *Prog) addrEffect(so *Sorts, addr ssa.Value) (key string, base ssa.Value
 			}
 			s := so.sortOf(xt.Elem())
 			_, isAlloc := a.X.(*ssa.Alloc)
-			return regKeyS("C:"+s, arrSort(sInt, s)), a.X, isAlloc, true
+			return regKeyS(so, "C:"+s, arrSort(sInt, s)), a.X, isAlloc, true
 		}
 	case *ssa.Global:
-		return regKeyS("G:"+a.Pkg.Pkg.Path()+"."+a.Name(), so.sortOf(a.Type().(*types.Pointer).Elem())), nil, false, true
+		return regKeyS(so, "G:"+a.Pkg.Pkg.Path()+"."+a.Name(), so.sortOf(a.Type().(*types.Pointer).Elem())), nil, false, true
 	case *ssa.Alloc:
 		et := a.Type().(*types.Pointer).Elem()
 		if _, isStruct := et.Underlying().(*types.Struct); isStruct {
 			return "", a, true, false // whole-struct store to fresh object: caller expands
 		}
-		return regKeyS("C:"+so.sortOf(et), arrSort(sInt, so.sortOf(et))), a, true, true
+		return regKeyS(so, "C:"+so.sortOf(et), arrSort(sInt, so.sortOf(et))), a, true, true
 	default:
 		if pt, isPtr := addr.Type().Underlying().(*types.Pointer); isPtr {
 			if _, isStruct := pt.Elem().Underlying().(*types.Struct); !isStruct {
-				return regKeyS("C:"+so.sortOf(pt.Elem()), arrSort(sInt, so.sortOf(pt.Elem()))), addr, false, true
+				return regKeyS(so, "C:"+so.sortOf(pt.Elem()), arrSort(sInt, so.sortOf(pt.Elem()))), addr, false, true
 			}
 		}
 	}
@@ -210,11 +210,15 @@ func (p *Prog) effectsOfBlocks(so *Sorts, fn *ssa.Function, blocks []*ssa.BasicB
 					continue
 				}
 				addEff(Effect{key: key, base: base, param: paramIndex(fn, base)})
+			case *ssa.Next:
+				if x.IsString {
+					addEff(Effect{key: regKeyS(so, "IT:pos", arrSort(sInt, sInt)), base: x.Iter, param: -2})
+				}
 			case *ssa.MapUpdate:
 				mt := x.Map.Type().Underlying().(*types.Map)
 				ks, vs := so.sortOf(mt.Key()), so.sortOf(mt.Elem())
-				addEff(Effect{key: regKeyS("MH:"+ks+":"+vs, arrSort(sInt, arrSort(ks, sBool))), param: -1})
-				addEff(Effect{key: regKeyS("MV:"+ks+":"+vs, arrSort(sInt, arrSort(ks, vs))), param: -1})
+				addEff(Effect{key: regKeyS(so, "MH:"+ks+":"+vs, arrSort(sInt, arrSort(ks, sBool))), param: -1})
+				addEff(Effect{key: regKeyS(so, "MV:"+ks+":"+vs, arrSort(sInt, arrSort(ks, vs))), param: -1})
 			case ssa.CallInstruction:
 				for _, e := range p.callEffects(so, fn, x.Common(), visiting) {
 					addEff(e)
@@ -226,7 +230,7 @@ func (p *Prog) effectsOfBlocks(so *Sorts, fn *ssa.Function, blocks []*ssa.BasicB
 }
 
 func (p *Prog) funcEffects(so *Sorts, fn *ssa.Function, visiting map[*ssa.Function]bool) []Effect {
-	if e, ok := p.effCache[fn]; ok {
+	if e, ok := so.effCache[fn]; ok {
 		return e
 	}
 	if visiting[fn] {
@@ -259,7 +263,7 @@ func (p *Prog) funcEffects(so *Sorts, fn *ssa.Function, visiting map[*ssa.Functi
 		}
 		out = append(out, e)
 	}
-	p.effCache[fn] = out
+	so.effCache[fn] = out
 	return out
 }
 
@@ -276,7 +280,7 @@ func (p *Prog) contractEffects(so *Sorts, fn *ssa.Function, c *Contract) []Effec
 				if pnames[i] == name {
 					if st, ok := ptypes[i].Underlying().(*types.Slice); ok {
 						es := so.sortOf(st.Elem())
-						out = append(out, Effect{key: regKeyS("M:"+es, arrSort(sInt, arrSort(sInt, es))), param: -1})
+						out = append(out, Effect{key: regKeyS(so, "M:"+es, arrSort(sInt, arrSort(sInt, es))), param: -1})
 					}
 				}
 			}
@@ -299,8 +303,8 @@ func (p *Prog) contractEffects(so *Sorts, fn *ssa.Function, c *Contract) []Effec
 			}
 			mt := o.Type().Underlying().(*types.Map)
 			ks, vs := so.sortOf(mt.Key()), so.sortOf(mt.Elem())
-			out = append(out, Effect{key: regKeyS("MH:"+ks+":"+vs, arrSort(sInt, arrSort(ks, sBool))), param: -1})
-			out = append(out, Effect{key: regKeyS("MV:"+ks+":"+vs, arrSort(sInt, arrSort(ks, vs))), param: -1})
+			out = append(out, Effect{key: regKeyS(so, "MH:"+ks+":"+vs, arrSort(sInt, arrSort(ks, sBool))), param: -1})
+			out = append(out, Effect{key: regKeyS(so, "MV:"+ks+":"+vs, arrSort(sInt, arrSort(ks, vs))), param: -1})
 			continue
 		}
 		if strings.HasPrefix(m, "global ") {
@@ -365,14 +369,14 @@ func (p *Prog) callEffects(so *Sorts, caller *ssa.Function, cc *ssa.CallCommon, 
 		switch v.Name() {
 		case "append":
 			es := so.sortOf(cc.Args[0].Type().Underlying().(*types.Slice).Elem())
-			return []Effect{{key: regKeyS("M:"+es, arrSort(sInt, arrSort(sInt, es))), param: -1}}
+			return []Effect{{key: regKeyS(so, "M:"+es, arrSort(sInt, arrSort(sInt, es))), param: -1}}
 		case "copy":
 			es := so.sortOf(cc.Args[0].Type().Underlying().(*types.Slice).Elem())
-			return []Effect{{key: regKeyS("M:"+es, arrSort(sInt, arrSort(sInt, es))), param: -1}}
+			return []Effect{{key: regKeyS(so, "M:"+es, arrSort(sInt, arrSort(sInt, es))), param: -1}}
 		case "delete":
 			mt := cc.Args[0].Type().Underlying().(*types.Map)
 			ks, vs := so.sortOf(mt.Key()), so.sortOf(mt.Elem())
-			return []Effect{{key: regKeyS("MH:"+ks+":"+vs, arrSort(sInt, arrSort(ks, sBool))), param: -1}}
+			return []Effect{{key: regKeyS(so, "MH:"+ks+":"+vs, arrSort(sInt, arrSort(ks, sBool))), param: -1}}
 		}
 		return nil
 	case *ssa.Function:
@@ -590,7 +594,7 @@ func (ex *Exec) applyEffects(h *Heap, effs []Effect, l *Loop, guard Term) *Heap 
 		byKey[e.key] = append(byKey[e.key], e)
 	}
 	for _, key := range sortedKeys(byKey) {
-		sortS, ok := heapKeySort[key]
+		sortS, ok := q.so.keySort[key]
 		if !ok {
 			continue // key never read or written symbolically so far; it will be created fresh on first use
 		}
@@ -635,13 +639,13 @@ func (ex *Exec) applyEffects(h *Heap, effs []Effect, l *Loop, guard Term) *Heap 
 	// (conservative: any key first used later gets an unconstrained symbol).
 	unknownKeys := false
 	for k := range byKey {
-		if _, ok := heapKeySort[k]; !ok {
+		if _, ok := q.so.keySort[k]; !ok {
 			unknownKeys = true
 		}
 	}
 	if unknownKeys {
 		// materialise everything known, then switch generation
-		for k := range heapKeySort {
+		for k := range q.so.keySort {
 			if _, ok := nh.m[k]; !ok {
 				nh.m[k] = q.heapGet(nh, k)
 			}
